@@ -131,6 +131,7 @@ func genC11(rng *rand.Rand, tier string) *sim.Plan {
 		}
 	}
 	p.Phases = append(p.Phases, fin)
+	maybeRedis(rng, p, 0.2)
 	return p
 }
 
